@@ -72,8 +72,8 @@ class Seam:
         self.n_act = 0
         self.names = {}           # id(coroutine) -> actor name (objects pinned by the world)
         self.pins = []
-        self.acts = [] if record else None   # (tick, time, turnname, sigkind)
-        self.sched = [] if record else None  # (tick, time, name, sigkind, due)
+        self.acts = [] if record else None   # (tick, time, turnname, sigkind, id(target))
+        self.sched = [] if record else None  # (tick, time, name, sigkind, due, id(target))
         self.plan = sorted(plan, key=lambda f: f["tick"])
         self._next = 0
         self._inject = inject
@@ -223,7 +223,8 @@ class Seam:
         else:
             due = at
         if self.sched is not None:
-            self.sched.append((self.tick, now, self.name_of(target), _sigkind(signal), due))
+            self.sched.append((self.tick, now, self.name_of(target), _sigkind(signal), due,
+                               id(target)))
         if not model.tainted:
             if due == now and not (delay is None and at is None):
                 # inf + d == inf: re-queued behind the current step under an equal key;
@@ -244,7 +245,7 @@ class Seam:
         name = self.current = self.name_of(target)
         self.current_target = target
         if self.acts is not None:
-            self.acts.append((self.tick, now, name, _sigkind(signal)))
+            self.acts.append((self.tick, now, name, _sigkind(signal), id(target)))
         # step caps
         key = (id(loop), now)
         if key == self._same_key:
